@@ -437,19 +437,19 @@ func (f *FuncCtx) binop(st *State, op token.Token, a, b Term, opndT, resT types.
 		case token.SUB:
 			return norm(mk("bvsub", SBV64))
 		case token.MUL:
-			return norm(mk("bvmul", SBV64))
+			return norm(mk("bv_mul", SBV64))
 		case token.QUO:
 			f.panicIf(st, "(= "+b.S+" (_ bv0 64))", f.site("divzero"))
 			if signed {
-				return norm(mk("bvsdiv", SBV64))
+				return norm(mk("bv_sdiv", SBV64))
 			}
-			return mk("bvudiv", SBV64)
+			return mk("bv_udiv", SBV64)
 		case token.REM:
 			f.panicIf(st, "(= "+b.S+" (_ bv0 64))", f.site("divzero"))
 			if signed {
-				return mk("bvsrem", SBV64)
+				return mk("bv_srem", SBV64)
 			}
-			return mk("bvurem", SBV64)
+			return mk("bv_urem", SBV64)
 		case token.AND:
 			return mk("bvand", SBV64)
 		case token.OR:
@@ -476,8 +476,8 @@ func (f *FuncCtx) binop(st *State, op token.Token, a, b Term, opndT, resT types.
 	case SF64:
 		switch op {
 		case token.ADD, token.SUB, token.MUL, token.QUO:
-			m := map[token.Token]string{token.ADD: "fp.add", token.SUB: "fp.sub", token.MUL: "fp.mul", token.QUO: "fp.div"}
-			t := Term{S: "(" + m[op] + " RNE " + a.S + " " + b.S + ")", Sort: SF64, GoT: resT}
+			m := map[token.Token]string{token.ADD: "f_add", token.SUB: "f_sub", token.MUL: "f_mul", token.QUO: "f_div"}
+			t := Term{S: "(" + m[op] + " " + a.S + " " + b.S + ")", Sort: SF64, GoT: resT}
 			if isFloat32(resT) {
 				t.S = "((_ to_fp 11 53) RNE ((_ to_fp 8 24) RNE " + t.S + "))"
 			}
@@ -551,10 +551,11 @@ func (f *FuncCtx) convert(st *State, v Term, from, to types.Type, pos string) Te
 		return out
 	case fs == SBV64 && ts == SF64:
 		fn := "to_fp_unsigned"
+		out.S = "(bv2f_u " + v.S + ")"
 		if fsigned {
 			fn = "to_fp"
+			out.S = "(bv2f_s " + v.S + ")"
 		}
-		out.S = "((_ " + fn + " 11 53) RNE " + v.S + ")"
 		if isFloat32(to) {
 			out.S = "((_ to_fp 11 53) RNE ((_ " + fn + " 8 24) RNE " + v.S + "))"
 		}
@@ -596,6 +597,9 @@ func (f *FuncCtx) convert(st *State, v Term, from, to types.Type, pos string) Te
 
 func (f *FuncCtx) declareFun(name string, args []string, res string) {
 	if f.declSet[name] {
+		return
+	}
+	if _, isSpec := f.w.specFuncs[name]; isSpec {
 		return
 	}
 	f.declSet[name] = true
